@@ -18,6 +18,11 @@
 * Option/Result combinators (`map`, `map_or`, `filter`, `with_context`, `context`, `ok_or[_else]`, `map_err`) are
   interpreted on *concrete* Some/None/Ok/Err values; on symbolic values the Option->Result / error-decorating ones
   are transparent, so that `f(x).with_context(..)?` is the term f(x) with `tried=True`.
+* iterator chain == `for` loop: a `for` loop without a hook is evaluated once at `cond` depth + 1 with its pattern bound to the abstract
+  element of the iterated value; a collection local it fills (`c.insert(k, v)` / `c.push(v)`) becomes a ("sym", text, "built", ..) term and
+  a local it re-assigns from its previous value becomes a ("sym", text, "fold", ..) term.  `describe_collection` / `describe_fold` give
+  one normal form (source, per-element function) for `src.iter().map(f).collect()`, `try_fold(init, f)` and the explicit loops.
+* irrefutable patterns over symbolic values bind projections (`let (_, nodes) = f()?` -> nodes = f().1), never the source names.
 """
 from . import hir as H
 from . import tables as T
@@ -70,6 +75,42 @@ def mk_not(x):
     return U("not", "!" + T.show(x), (x,))
 
 
+def mk_match(node, sv):
+    return U("match", "match %s {…}" % T.show(sv), (id(node), sv))
+
+
+def proj_bind(p, v, env):
+    """Bind an irrefutable pattern against a (possibly symbolic) value: tuple / struct patterns over a symbol bind projections."""
+    k = p.get("k")
+    if k == "wild":
+        return
+    if k == "bind":
+        env[p["id"]] = v
+        if "sub" in p:
+            proj_bind(p["sub"], v, env)
+        return
+    if k in ("pref", "pbox", "pderef"):
+        proj_bind(p["pat"], v, env)
+        return
+    if k == "ptuple" and p.get("ddpos") is None:
+        for i, sp in enumerate(p["pats"]):
+            if v[0] == "t" and i < len(v[1]):
+                proj_bind(sp, v[1][i], env)
+            else:
+                proj_bind(sp, mk_fld(v, str(i)), env)
+        return
+    if k == "pstruct" and not p["res"].get("variant"):
+        for f in p["fields"]:
+            sv = v[2].get(f["name"]) if v[0] == "st" else None
+            proj_bind(f["pat"], sv if sv is not None else mk_fld(v, f["name"]), env)
+        return
+    if k == "ptuplestruct" and p["res"].get("variant") in ("Some", "Ok") and v[0] == "v" and v[1] == p["res"]["variant"] and len(p["pats"]) == 1 and v[2]:
+        proj_bind(p["pats"][0], v[2][0], env)
+        return
+    for (i, nm) in H.pat_bindings(p):
+        env.setdefault(i, T.sym(nm))
+
+
 NEG = {"==": "!=", "!=": "==", "<": ">=", ">=": "<", ">": "<=", "<=": ">"}
 SWAP = {"==": "==", "!=": "!=", "<": ">", ">": "<", "<=": ">=", ">=": "<="}
 
@@ -110,6 +151,7 @@ class PathEval(T.Evaluator):
         self.nid = 0
         self.by_nid = {}
         self.for_hook = for_hook
+        self.loops = {}               # nid of a built / fold term -> {"node": for node, "env": env at loop entry, "src": iterated value}
         self.seen = set()             # id() of every call / assign / struct node evaluated
 
     # ------------------------------------------------------------------ events
@@ -138,7 +180,9 @@ class PathEval(T.Evaluator):
             v = self.ev(n["e"], env)
             if v[0] == "v" and v[1] in ("Ok", "Some", "Continue"):
                 return v[2][0] if v[2] else ("t", [])
-            if v[0] == "v" and v[1] in ("Err", "None", "Break"):
+            if v[0] == "v" and v[1] == "None":
+                raise T.Return(v)          # `?` on an Option is only possible where the function / closure returns an Option
+            if v[0] == "v" and v[1] in ("Err", "Break"):
                 raise T.Return(("err", T.show(v)))
             if v[0] == "err":
                 raise T.Return(v)
@@ -188,11 +232,26 @@ class PathEval(T.Evaluator):
             r = self.ev(n["r"], env)
             self.event(kind="assignop", op=n["op"], l=l, r=r, node=n)
             return ("t", [])
+        if k == "mcall" and n["name"] in ("try_for_each", "for_each") and len(n["args"]) == 1 and H.peel(n["args"][0]).get("k") == "closure" \
+                and len(H.peel(n["args"][0])["params"]) == 1:
+            # `iter.try_for_each(|x| { .. Ok(()) })?`  ==  `for x in iter { .. }` (an Err leaves the function through the `?`)
+            clo = H.peel(n["args"][0])
+            pseudo = n.get("_as_for")       # kept on the node so that its identity is stable across evaluators
+            if pseudo is None:
+                pseudo = {"k": "for", "pat": clo["params"][0], "iter": n["recv"], "body": clo["body"], "sp": n.get("sp"), "src": n["name"]}
+                n["_as_for"] = pseudo
+            self.seen.add(id(n))
+            r = self.ev(pseudo, env)
+            if T.is_sym(r):
+                return r
+            return T.V("Ok", ("t", [])) if n["name"] == "try_for_each" else ("t", [])
         if k in ("for", "loop"):
             if self.for_hook is not None:
                 r = self.for_hook(self, n, env)
                 if r is not None:
                     return r
+            if k == "for":
+                return self.ev_for(n, env)
             self.event(kind="loop", node=n)
             return T.sym("<loop>")
         if k == "array":
@@ -263,6 +322,14 @@ class PathEval(T.Evaluator):
                     self.event(kind="opaque", node=s)
                 for (i, nm) in H.pat_bindings(s["pat"]):
                     env[i] = e2.get(i, T.sym(nm))
+            return
+        if s.get("k") == "let" and "init" in s:
+            v = self.ev(s["init"], env)
+            e2 = {}
+            if T.match_pat(s["pat"], v, e2) is True:
+                env.update(e2)
+            else:
+                proj_bind(s["pat"], v, env)
             return
         super().stmt(s, env)
 
@@ -335,7 +402,7 @@ class PathEval(T.Evaluator):
                 continue
             if r is None:
                 self.event(kind="opaque", node=n)
-                return T.sym("match %s {…}" % T.show(sv))
+                return mk_match(n, sv)
             if "guard" in a:
                 g = self.ev(a["guard"], e2)
                 if g == ("b", False):
@@ -357,14 +424,87 @@ class PathEval(T.Evaluator):
         return T.sym("<no arm>")
 
     # ------------------------------------------------------------------ calls
+    # ------------------------------------------------------------------ loops
+    FILLERS = ("insert", "push", "push_back", "push_front")
+
+    def element_of(self, src):
+        """Abstract element of an iterated value (see describe_collection)."""
+        base, f = describe_collection(self, src)
+        return f(U("elem", "elem(%s)" % T.show(base), (base,)))
+
+    def ev_for(self, n, env):
+        """`for pat in iter { body }` evaluated once, conditionally (zero iterations are possible)."""
+        src = self.ev(n["iter"], env)
+        self.event(kind="loop", node=n, evaluated=True, src=src)
+        snapshot = dict(env)
+        e2 = dict(env)
+        elem = self.element_of(src)
+        if T.match_pat(n["pat"], elem, e2) is not True:
+            proj_bind(n["pat"], elem, e2)
+        accs = {}
+        for x in H.walk(n["body"], into_closures=False):
+            if x.get("k") == "assign" and x["l"].get("k") == "path":
+                loc = H.local_of(x["l"])
+                if loc and loc[0] in env and loc[0] not in accs:
+                    accs[loc[0]] = U("acc", "$acc:%s" % T.show(env[loc[0]]), (env[loc[0]],))
+                    e2[loc[0]] = accs[loc[0]]
+        mark = len(self.trace)
+        self.cond_depth += 1
+        try:
+            self.ev(n["body"], e2)
+        except T.Break:
+            pass
+        except T.Return as r:
+            # an exit inside the body happens only if there is an element; evaluation continues behind the loop
+            self.event(kind="loop-exit", value=r.v, node=n)
+        finally:
+            self.cond_depth -= 1
+        filled = {}
+        for e in self.trace[mark:]:
+            if e["kind"] == "call" and e["name"] in self.FILLERS and e["node"].get("k") == "mcall":
+                loc = H.local_of(e["node"]["recv"])
+                if loc and loc[0] in env and T.is_sym(env[loc[0]]):
+                    filled.setdefault(loc[0], []).append(e)
+        for lid, evs in filled.items():
+            self.nid += 1
+            orig = env[lid]
+            self.loops[self.nid] = {"node": n, "env": snapshot, "src": src, "local": lid, "orig": orig}
+            env[lid] = U("built", "built(%s)" % T.show(src), (src, orig), self.nid)
+        for lid, accsym in accs.items():
+            self.nid += 1
+            self.loops[self.nid] = {"node": n, "env": snapshot, "src": src, "local": lid, "init": env[lid]}
+            env[lid] = U("fold", "fold(%s, %s)" % (T.show(src), T.show(env[lid])), (src, env[lid], e2.get(lid)), self.nid)
+        return ("t", [])
+
+    def loop_iteration(self, nid, elem, acc=None):
+        """Re-evaluate the body of the loop behind a built / fold term for one abstract element (at cond depth 0).
+        -> (outcome, env after the iteration, events of the iteration)"""
+        info = self.loops[nid]
+        n = info["node"]
+        env = dict(info["env"])
+        if T.match_pat(n["pat"], elem, env) is not True:
+            proj_bind(n["pat"], elem, env)
+        if acc is not None:
+            env[info["local"]] = acc
+        mark = len(self.trace)
+        saved = self.cond_depth
+        self.cond_depth = 0
+        try:
+            out = self.run(n["body"], env)
+        finally:
+            self.cond_depth = saved
+        return out, env, self.trace[mark:]
+
     def apply(self, f, args):
         """Apply a function value (closure / constructor path / symbol) to argument values."""
         if f[0] == "closure":
             node, cenv = f[1], dict(f[2])
             for p, a in zip(node["params"], args):
-                if T.match_pat(p, a, cenv) is not True:
-                    for (i, nm) in H.pat_bindings(p):
-                        cenv.setdefault(i, T.sym(nm))
+                e3 = {}
+                if T.match_pat(p, a, e3) is True:
+                    cenv.update(e3)
+                else:
+                    proj_bind(p, a, cenv)
             try:
                 return self.ev(node["body"], cenv)
             except T.Return as r:
@@ -523,3 +663,84 @@ def params_of_enclosing_closure(root, target):
         if p.get("k") == "closure":
             return p, [i for prm in p["params"] for (i, nm) in H.pat_bindings(prm)]
     return None, None
+
+
+ITER_ADAPTERS = ("iter", "into_iter", "iter_mut", "collect", "peekable", "by_ref", "copied", "cloned")
+
+
+def _has_effects(node):
+    """An unevaluated construct (undecided match, inner loop) matters for a per-element summary only if it can fill a collection,
+    assign, or leave the iteration."""
+    for x in H.walk(node):
+        k = x.get("k")
+        if k in ("assign", "assignop", "continue", "break", "ret"):
+            return True
+        if k == "mcall" and x["name"] in PathEval.FILLERS + ("extend", "remove", "swap_remove", "shift_remove", "clear", "retain"):
+            return True
+    return False
+
+
+def describe_collection(pe, v):
+    """Normal form of a collection-valued term: (source term, f) such that the elements are f(e) for the elements e of the source.
+    `src.iter().map(g).collect()` -> (src, g); a collection filled by `for p in src { c.insert(k, v) }` -> (src, e -> (k, v));
+    `Ok(..)` wrappers of the whole collection and of the elements (collect::<Result<_>>) are transparent.
+    The returned function evaluates program text for an abstract element; conditions met on the way are in its second result
+    when called through `element_entry`."""
+    if v[0] == "v" and v[1] == "Ok" and v[2]:
+        return describe_collection(pe, v[2][0])
+    k = kind_of(v)
+    if k == "call":
+        name, args = v[3]
+        if name in ITER_ADAPTERS and args:
+            return describe_collection(pe, args[0])
+        if name == "map" and len(args) == 2 and args[1][0] == "closure":
+            base, f = describe_collection(pe, args[0])
+
+            def g(e, f=f, clo=args[1]):
+                r = pe.apply(clo, [f(e)])
+                return r[2][0] if r[0] == "v" and r[1] == "Ok" and r[2] else r
+            return base, g
+    if k == "built" and v[4] in pe.loops:
+        info = pe.loops[v[4]]
+        base, f = describe_collection(pe, info["src"])
+
+        def h(e, f=f, nid=v[4], orig=v[3][1]):
+            out, env, evs = pe.loop_iteration(nid, f(e))
+            fills = [x for x in evs if x["kind"] == "call" and x["name"] in PathEval.FILLERS and x["args"] and x["args"][0] == orig]
+            conds = [x for x in evs if x["kind"] == "skip" or (x["kind"] in ("opaque", "loop") and _has_effects(x["node"]))]
+            if out[0] != "ok" or len(fills) != 1 or fills[0]["cond"] != 0 or any(evs.index(c) < evs.index(fills[0]) for c in conds):
+                return U("irregular", "<irregular loop body: %d fills>" % len(fills), ())
+            a = fills[0]["args"][1:]
+            return a[0] if len(a) == 1 else ("t", list(a))
+        return base, h
+    return v, (lambda e: e)
+
+
+def describe_fold(pe, v):
+    """Normal form of a left fold: {"src", "init", "step": (acc, x) -> (value of the next accumulator, events), "fallible"} or None.
+    Recognised: `src.try_fold(init, |acc, x| ..)?`, `src.fold(init, |acc, x| ..)`, and `let mut acc = init; for x in src { .. acc = ..; }`."""
+    k = kind_of(v)
+    if k == "call" and v[3][0] in ("try_fold", "fold") and len(v[3][1]) == 3 and v[3][1][2][0] == "closure":
+        src, init, clo = v[3][1]
+        e = pe.by_nid.get(v[4])
+        if v[3][0] == "try_fold" and not (e and e["tried"]):
+            return None
+
+        def step(acc, x):
+            mark = len(pe.trace)
+            r = pe.apply(clo, [acc, x])
+            if r[0] == "v" and r[1] == "Ok" and r[2]:
+                r = r[2][0]
+            return r, pe.trace[mark:]
+        return {"src": src, "init": init, "step": step, "fallible": v[3][0] == "try_fold"}
+    if k == "fold" and v[4] in pe.loops:
+        info = pe.loops[v[4]]
+
+        def step(acc, x, nid=v[4], lid=info["local"]):
+            out, env, evs = pe.loop_iteration(nid, x, acc)
+            asg = [e for e in evs if e["kind"] == "assign" and (H.local_of(e["node"]["l"]) or (None,))[0] == lid]
+            if out[0] != "ok" or len(asg) != 1 or asg[0]["cond"] != 0:
+                return U("irregular", "<irregular loop body: %d accumulator assignments>" % len(asg), ()), evs
+            return asg[0]["r"], evs
+        return {"src": info["src"], "init": info["init"], "step": step, "fallible": True}
+    return None
